@@ -50,6 +50,7 @@ impl Tm {
 /// What an already translated kernel looks like to its callers.
 #[derive(Debug, Clone)]
 pub struct Sig {
+    pub module: String,       // Gen module it lives in
     pub coq: String,          // possibly module-qualified name
     pub monadic: bool,
     pub extra: Vec<String>,   // names of its extra (self/opaque) parameters, in order
@@ -58,6 +59,15 @@ pub struct Sig {
 }
 
 const HOLE: &str = "\u{1}HOLE\u{1}";
+
+thread_local! {
+    /// inside a `rewrite` replacement (parsed from a string, so without source positions) panic
+    /// sites carry the line of the replaced expression
+    static LINE_OVERRIDE: std::cell::Cell<Option<usize>> = std::cell::Cell::new(None);
+}
+fn line_of(sp: proc_macro2::Span) -> usize {
+    LINE_OVERRIDE.with(|l| l.get()).unwrap_or(sp.start().line)
+}
 
 pub fn norm(e: &impl ToTokens) -> String {
     e.to_token_stream().to_string()
@@ -71,6 +81,12 @@ pub struct Ctx<'a> {
     names: BTreeMap<String, usize>,
     ret: Ty,
     wrap: bool,
+    /// number of assignments translated so far (a branch that assigns is not a plain term)
+    assigns: usize,
+    /// actual identifier -> canonical identifier, applied before matching the table's token strings
+    rename: Vec<(String, String)>,
+    /// actual names of the `state` places, in table order
+    state_keys: Vec<String>,
 }
 
 pub struct Out {
@@ -95,7 +111,7 @@ fn translate_mode(spec: &Spec, f_sig: &Signature, body: &Block, sigs: &BTreeMap<
         ReturnType::Default => Ty::Unit,
         ReturnType::Type(_, t) => spec.ty_of(t),
     };
-    let mut c = Ctx { spec, sigs, monadic, env: vec![], names: BTreeMap::new(), ret: ret.clone(), wrap };
+    let mut c = Ctx { spec, sigs, monadic, env: vec![], names: BTreeMap::new(), ret: ret.clone(), wrap, assigns: 0, rename: vec![], state_keys: vec![] };
     let mut binders: Vec<String> = vec![];
     if spec.fns.iter().any(|f| f.coq_ty.ends_with("-> R")) {
         // the result type of an opaque callee is abstract
@@ -111,6 +127,7 @@ fn translate_mode(spec: &Spec, f_sig: &Signature, body: &Block, sigs: &BTreeMap<
         binders.push(format!("({} : {})", p, t));
     }
     let mut nparams = 0;
+    let mut pidx = 0;
     for a in &f_sig.inputs {
         match a {
             FnArg::Receiver(_) => {}
@@ -119,10 +136,20 @@ fn translate_mode(spec: &Spec, f_sig: &Signature, body: &Block, sigs: &BTreeMap<
                     Pat::Ident(pi) => pi.ident.to_string(),
                     _ => return unsup("parameter pattern", pt.span()),
                 };
-                if spec.drop_params.iter().any(|d| *d == name) {
+                if let Some(cn) = spec.canon_params.get(pidx) {
+                    if *cn != name {
+                        c.rename.push((name.clone(), cn.to_string()));
+                    }
+                }
+                pidx += 1;
+                let cname = c.canon(&name);
+                if spec.drop_params.iter().any(|d| *d == cname) {
                     continue;
                 }
-                let ty = spec.ty_of(&pt.ty);
+                let ty = match spec.param_tys.iter().find(|(n, _)| *n == cname) {
+                    Some((_, t)) => t.clone(),
+                    None => spec.ty_of(&pt.ty),
+                };
                 let cty = match coq_ty(&ty) {
                     Some(t) => t,
                     None => return unsup(&format!("type of parameter `{}`", name), pt.ty.span()),
@@ -134,13 +161,82 @@ fn translate_mode(spec: &Spec, f_sig: &Signature, body: &Block, sigs: &BTreeMap<
             }
         }
     }
+    // ---- which statements are translated
+    let mut base_stmts: Vec<Stmt> = body.stmts.clone();
+    if let Some(li) = spec.loop_idx {
+        // the body of the li-th loop; the identifiers of its header pattern get the table's names/types
+        let mut loops: Vec<(Option<Pat>, Block, Vec<String>)> = vec![];
+        collect_loops(&body.stmts, &mut vec![], &mut loops);
+        let (pat, blk, muts) = match loops.into_iter().nth(li) {
+            Some(x) => x,
+            None => return unsup(&format!("the function has no loop number {}", li), body.span()),
+        };
+        let mut ids = vec![];
+        if let Some(p) = &pat {
+            pat_idents(p, &mut ids);
+        }
+        if ids.len() != spec.vars.len() {
+            return unsup(&format!("the loop header binds {} identifiers, the table names {}", ids.len(), spec.vars.len()), blk.span());
+        }
+        for (actual, (cn, ty)) in ids.iter().zip(spec.vars.iter()) {
+            if actual != cn {
+                c.rename.push((actual.clone(), cn.to_string()));
+            }
+            match ty {
+                Ty::Unit => c.env.push((actual.clone(), Tm::atom("tt", Ty::Unit))),
+                _ => {
+                    let cty = coq_ty(ty).ok_or_else(|| TErr::Unsupported("type of a loop variable".into()))?;
+                    let v = c.fresh(&format!("v_{}", cn));
+                    binders.push(format!("({} : {})", v, cty));
+                    c.env.push((actual.clone(), Tm::atom(v, ty.clone())));
+                }
+            }
+        }
+        // `#i` state places: the i-th `let mut` before the loop
+        for st in &spec.state {
+            if let Some(i) = st.pat.strip_prefix('#') {
+                let i: usize = i.parse().map_err(|_| TErr::Unsupported("bad #i state".into()))?;
+                match muts.get(i) {
+                    Some(actual) => {
+                        if actual != st.param {
+                            c.rename.push((actual.clone(), st.param.to_string()));
+                        }
+                        c.state_keys.push(actual.clone());
+                        c.env.push((actual.clone(), Tm::atom(st.param, st.ty.clone())));
+                    }
+                    None => return unsup(&format!("no `let mut` number {} before the loop", i), blk.span()),
+                }
+            }
+        }
+        base_stmts = blk.stmts.clone();
+    }
+    for st in &spec.state {
+        if !st.pat.starts_with('#') {
+            c.state_keys.push(st.pat.to_string());
+            c.env.push((st.pat.to_string(), Tm::atom(st.param, st.ty.clone())));
+        }
+    }
+    if spec.locals.is_some() || spec.until.is_some() {
+        // a trailing `unsafe { .. }` block is part of the statement list
+        if let Some(Stmt::Expr(Expr::Unsafe(u), _)) = base_stmts.last().cloned() {
+            base_stmts.pop();
+            base_stmts.extend(u.block.stmts.iter().cloned());
+        }
+    }
+    if let Some(u) = spec.until {
+        match base_stmts.iter().position(|s| c.nk(s).starts_with(u)) {
+            Some(i) => base_stmts.truncate(i),
+            None => return unsup(&format!("no top-level statement starting with `{}`", u), body.span()),
+        }
+    }
     let stmts: Vec<Stmt> = match &spec.locals {
-        None => body.stmts.clone(),
+        None => base_stmts,
+        Some(ls) if ls.is_empty() || spec.until.is_some() => base_stmts,
         Some(ls) => {
             // keep the shortest prefix of the body in which every requested local has been `let`-bound
             let mut last = None;
             let mut seen: Vec<String> = vec![];
-            for (i, s) in body.stmts.iter().enumerate() {
+            for (i, s) in base_stmts.iter().enumerate() {
                 if let Stmt::Local(l) = s {
                     if let Some(n) = pat_ident(&l.pat) {
                         if ls.iter().any(|x| *x == n) && !seen.contains(&n) {
@@ -154,12 +250,15 @@ fn translate_mode(spec: &Spec, f_sig: &Signature, body: &Block, sigs: &BTreeMap<
                 }
             }
             match last {
-                Some(i) => body.stmts[..=i].to_vec(),
+                Some(i) => base_stmts[..=i].to_vec(),
                 None => return unsup("requested locals are not bound by top-level `let`s", body.span()),
             }
         }
     };
     let fin: &dyn Fn(&mut Ctx, Tm) -> R = &|c, tm| {
+        if c.spec.step.is_some() {
+            return c.step_value("KNext");
+        }
         if let Some(ls) = &c.spec.locals {
             let mut parts = vec![];
             for l in ls {
@@ -174,14 +273,23 @@ fn translate_mode(spec: &Spec, f_sig: &Signature, body: &Block, sigs: &BTreeMap<
         }
         c.finish(tm)
     };
-    let term = if spec.locals.is_some() {
+    let term = if spec.locals.is_some() || spec.step.is_some() {
         // the truncated list ends with a `let`: the continuation sees the bound locals
         c.stmts_open(&stmts, fin)?
     } else {
         c.stmts(&stmts, fin)?
     };
-    let def = format!("Definition {} {} :=\n{}.", spec.name, binders.join(" "), term);
+    let annot = match spec.step {
+        Some((st, rt)) => {
+            let k = format!("kstep ({}) ({})", st, rt);
+            let k = if spec.effects.is_empty() { k } else { format!("(list call * {})%type", k) };
+            if monadic { format!(" : outcome ({})", k) } else { format!(" : {}", k) }
+        }
+        None => String::new(),
+    };
+    let def = format!("Definition {} {}{} :=\n{}.", spec.name, binders.join(" "), annot, term);
     let sig = Sig {
+        module: spec.module.to_string(),
         coq: spec.name.to_string(),
         monadic,
         extra: spec.extra_params().into_iter().map(|(p, _)| p).collect(),
@@ -189,6 +297,95 @@ fn translate_mode(spec: &Spec, f_sig: &Signature, body: &Block, sigs: &BTreeMap<
         ret,
     };
     Ok(Out { def, sig })
+}
+
+/// loops of a function body in source order: (header pattern, body, names of the top-level `let mut`s before it)
+fn collect_loops(stmts: &[Stmt], _muts: &mut Vec<String>, out: &mut Vec<(Option<Pat>, Block, Vec<String>)>) {
+    use syn::visit::Visit;
+    struct V {
+        found: Vec<((usize, usize), Option<Pat>, Block)>,
+    }
+    impl<'ast> Visit<'ast> for V {
+        fn visit_expr_for_loop(&mut self, l: &'ast ExprForLoop) {
+            let p = l.for_token.span.start();
+            self.found.push(((p.line, p.column), Some((*l.pat).clone()), l.body.clone()));
+            syn::visit::visit_expr_for_loop(self, l);
+        }
+        fn visit_expr_while(&mut self, l: &'ast ExprWhile) {
+            let p = l.while_token.span.start();
+            let pat = match &*l.cond {
+                Expr::Let(el) => Some((*el.pat).clone()),
+                _ => None,
+            };
+            self.found.push(((p.line, p.column), pat, l.body.clone()));
+            syn::visit::visit_expr_while(self, l);
+        }
+        fn visit_expr_loop(&mut self, l: &'ast ExprLoop) {
+            let p = l.loop_token.span.start();
+            self.found.push(((p.line, p.column), None, l.body.clone()));
+            syn::visit::visit_expr_loop(self, l);
+        }
+    }
+    let mut v = V { found: vec![] };
+    let mut muts: Vec<((usize, usize), String)> = vec![];
+    for s in stmts {
+        if let Stmt::Local(l) = s {
+            let mut p = &l.pat;
+            if let Pat::Type(pt) = p {
+                p = &pt.pat;
+            }
+            if let Pat::Ident(pi) = p {
+                if pi.mutability.is_some() {
+                    let sp = pi.ident.span().start();
+                    muts.push(((sp.line, sp.column), pi.ident.to_string()));
+                }
+            }
+        }
+        v.visit_stmt(s);
+    }
+    v.found.sort_by_key(|f| f.0);
+    for (pos, pat, blk) in v.found {
+        out.push((pat, blk, muts.iter().filter(|(q, _)| *q < pos).map(|(_, n)| n.clone()).collect()));
+    }
+}
+
+/// identifiers bound by a pattern, left to right (constructor names excluded)
+fn pat_idents(p: &Pat, out: &mut Vec<String>) {
+    match p {
+        Pat::Ident(pi) => {
+            let n = pi.ident.to_string();
+            if n != "None" {
+                out.push(n);
+            }
+        }
+        Pat::Type(pt) => pat_idents(&pt.pat, out),
+        Pat::Paren(pp) => pat_idents(&pp.pat, out),
+        Pat::Reference(r) => pat_idents(&r.pat, out),
+        Pat::Tuple(t) => t.elems.iter().for_each(|e| pat_idents(e, out)),
+        Pat::TupleStruct(t) => t.elems.iter().for_each(|e| pat_idents(e, out)),
+        _ => {}
+    }
+}
+
+fn rename_tokens(ts: proc_macro2::TokenStream, map: &[(String, String)]) -> proc_macro2::TokenStream {
+    use proc_macro2::TokenTree;
+    ts.into_iter()
+        .map(|t| match t {
+            TokenTree::Ident(id) => {
+                let n = id.to_string();
+                match map.iter().find(|(a, _)| *a == n) {
+                    Some((_, c)) => TokenTree::Ident(proc_macro2::Ident::new(c, id.span())),
+                    None => TokenTree::Ident(id),
+                }
+            }
+            TokenTree::Group(g) => {
+                let mut ng = proc_macro2::Group::new(g.delimiter(), rename_tokens(g.stream(), map));
+                ng.set_span(g.span());
+                TokenTree::Group(ng)
+            }
+            t => t,
+        })
+        .collect()
 }
 
 fn pat_ident(p: &Pat) -> Option<String> {
@@ -201,7 +398,8 @@ fn pat_ident(p: &Pat) -> Option<String> {
 
 pub fn coq_ty(t: &Ty) -> Option<String> {
     Some(match t {
-        Ty::Int(_) | Ty::NonZero | Ty::Addr => "N".into(),
+        Ty::Int(_) | Ty::NonZero | Ty::Addr | Ty::ISize | Ty::Ptr => "N".into(),
+        Ty::Either(a, b) => format!("({} + {})%type", coq_ty(a)?, coq_ty(b)?),
         Ty::Bool => "bool".into(),
         Ty::Unit => "unit".into(),
         Ty::Opt(a) => format!("(option {})", coq_ty(a)?),
@@ -218,7 +416,7 @@ pub fn coq_ty(t: &Ty) -> Option<String> {
 }
 
 fn is_int(t: &Ty) -> bool {
-    matches!(t, Ty::Int(_) | Ty::NonZero | Ty::Addr)
+    matches!(t, Ty::Int(_) | Ty::NonZero | Ty::Addr | Ty::ISize)
 }
 fn is_w64(t: &Ty) -> bool {
     matches!(t, Ty::Int(64) | Ty::Addr)
@@ -234,20 +432,105 @@ impl<'a> Ctx<'a> {
             format!("{}_{}", base, *n - 1)
         }
     }
+    /// canonical name of an identifier of the source
+    fn canon(&self, name: &str) -> String {
+        match self.rename.iter().find(|(a, _)| a == name) {
+            Some((_, c)) => c.clone(),
+            None => name.to_string(),
+        }
+    }
+    /// token string of a piece of syntax with the canonical names substituted: what the table's
+    /// patterns (`extra`, `skip`, `rewrite`, ...) are compared with
+    fn nk(&self, e: &impl ToTokens) -> String {
+        if self.rename.is_empty() {
+            norm(e)
+        } else {
+            rename_tokens(e.to_token_stream(), &self.rename).to_string()
+        }
+    }
+    /// Step mode: `<ctor> (state values, locals)`; the locals must be in scope
+    fn step_value(&mut self, ctor: &str) -> R {
+        let mut parts = vec![];
+        for k in self.state_keys.clone() {
+            match self.lookup(&k) {
+                Some(t) => parts.push(t.s),
+                None => return Err(TErr::Unsupported(format!("state `{}` not in scope", k))),
+            }
+        }
+        if let Some(ls) = &self.spec.locals {
+            for l in ls {
+                let actual = self.rename.iter().find(|(_, c)| c == l).map(|(a, _)| a.clone()).unwrap_or(l.to_string());
+                match self.lookup(&actual) {
+                    Some(t) => parts.push(t.s),
+                    None => return Err(TErr::Unsupported(format!("local `{}` not in scope at `{}`", l, ctor))),
+                }
+            }
+        }
+        let tup = match parts.len() {
+            0 => "tt".to_string(),
+            1 => parts[0].clone(),
+            _ => format!("({})", parts.join(", ")),
+        };
+        let v = format!("{} {}", ctor, tup);
+        Ok(self.wrap_result(v))
+    }
+    fn step_return(&mut self, tm: Tm) -> R {
+        let v = format!("KReturn {}", tm.s);
+        Ok(self.wrap_result(v))
+    }
+    /// final value of a kernel: paired with the empty call list in an effect kernel, `Val` in the monad
+    fn wrap_result(&self, v: String) -> String {
+        let v = if self.spec.effects.is_empty() { v } else { format!("([], {})", v) };
+        if self.monadic { format!("Val ({})", v) } else { format!("({})", v) }
+    }
+    /// assignment `place = tm`: the latest binding of the place is replaced
+    fn assign(&mut self, key: &str, tm: Tm, sp: proc_macro2::Span, cont: &dyn Fn(&mut Ctx) -> R) -> R {
+        let idx = match self.env.iter().rposition(|(n, _)| n == key) {
+            Some(i) => i,
+            None => return unsup(&format!("assignment to `{}` (not a local / declared state)", key), sp),
+        };
+        self.assigns += 1;
+        if tm.atomic {
+            self.env[idx].1 = tm;
+            cont(self)
+        } else {
+            let cn = self.canon(key);
+            let base: String = cn.rsplit(|ch: char| !(ch.is_alphanumeric() || ch == '_')).find(|x| !x.is_empty()).unwrap_or("x").to_string();
+            let v = self.fresh(&format!("v_{}", base));
+            self.env[idx].1 = Tm::atom(v.clone(), tm.ty.clone());
+            let rest = cont(self)?;
+            Ok(format!("let {} := {} in\n{}", v, tm.s, rest))
+        }
+    }
+    /// runs `f` and restores the variable bindings afterwards (sibling branches start from the same state)
+    fn branch<T>(&mut self, f: impl FnOnce(&mut Ctx<'a>) -> T) -> T {
+        let save = self.env.clone();
+        let r = f(self);
+        self.env = save;
+        r
+    }
     fn lookup(&self, name: &str) -> Option<Tm> {
         self.env.iter().rev().find(|(n, _)| n == name).map(|(_, t)| t.clone())
     }
 
     /// value of the function (tail expression or `return e`)
     fn finish(&mut self, tm: Tm) -> R {
+        if self.spec.step.is_some() {
+            return self.step_return(tm);
+        }
         if self.spec.locals.is_some() {
             // `return ..;` before the requested locals exist
             return Ok(if self.monadic { "Val None".into() } else { "None".into() });
         }
         if !self.spec.effects.is_empty() {
-            return Ok("[]".into());
+            return Ok(if self.monadic { "Val []".into() } else { "[]".into() });
         }
-        Ok(if self.monadic { format!("Val {}", tm.s) } else { tm.s })
+        let v = match self.spec.ret_wrap {
+            // a plain integer the function returns next to results of opaque calls of abstract type R
+            Some(w) if is_int(&tm.ty) => format!("({} {})", w, tm.s),
+            _ => tm.s,
+        };
+        Ok(if self.monadic { format!("Val {}", v) } else { v })
     }
 
     /// Runs `f` with a continuation that only records its argument.  Some(tm) iff `f` produced
@@ -255,15 +538,18 @@ impl<'a> Ctx<'a> {
     fn probe(&mut self, f: &dyn Fn(&mut Ctx, K) -> R) -> std::result::Result<Option<Tm>, TErr> {
         let cell: RefCell<Option<Tm>> = RefCell::new(None);
         let names = self.names.clone();
-        let envlen = self.env.len();
+        let env = self.env.clone();
+        let assigns = self.assigns;
         let r = f(self, &|_c, tm| {
             *cell.borrow_mut() = Some(tm);
             Ok(HOLE.to_string())
-        })?;
-        self.env.truncate(envlen);
-        if r == HOLE {
+        });
+        self.env = env;
+        let r = r?;
+        if r == HOLE && self.assigns == assigns {
             Ok(cell.into_inner())
         } else {
+            self.assigns = assigns;
             self.names = names;
             Ok(None)
         }
@@ -299,7 +585,16 @@ impl<'a> Ctx<'a> {
                     Some(i) if i.diverge.is_none() => &i.expr,
                     _ => return unsup("`let` without initialiser / with `else`", l.span()),
                 };
-                if self.spec.skip.iter().any(|p| *p == norm(&**init)) {
+                let ik = self.nk(&**init);
+                if self.spec.skip.iter().any(|p| *p == ik) {
+                    return self.stmts(rest, k);
+                }
+                if let Some((_, cn)) = self.spec.skip_as.iter().find(|(p, _)| *p == ik) {
+                    if let Some(actual) = pat_ident(&l.pat) {
+                        if actual != *cn {
+                            self.rename.push((actual, cn.to_string()));
+                        }
+                    }
                     return self.stmts(rest, k);
                 }
                 let envlen = self.env.len();
@@ -308,7 +603,11 @@ impl<'a> Ctx<'a> {
                 r
             }
             Stmt::Expr(e, semi) => {
-                if self.spec.skip.iter().any(|p| *p == norm(e)) {
+                let ek = self.nk(e);
+                if self.spec.skip.iter().any(|p| *p == ek) {
+                    return self.stmts(rest, k);
+                }
+                if self.spec.skip_loops && matches!(e, Expr::ForLoop(_) | Expr::While(_) | Expr::Loop(_)) {
                     return self.stmts(rest, k);
                 }
                 if rest.is_empty() && semi.is_none() {
@@ -324,7 +623,7 @@ impl<'a> Ctx<'a> {
 
     fn stmt_macro(&mut self, mac: &Macro, cont: &dyn Fn(&mut Ctx) -> R) -> R {
         let name = mac.path.segments.last().map(|s| s.ident.to_string()).unwrap_or_default();
-        let line = mac.span().start().line;
+        let line = line_of(mac.span());
         let args: Vec<Expr> = match mac.parse_body_with(punctuated::Punctuated::<Expr, Token![,]>::parse_terminated) {
             Ok(p) => p.into_iter().collect(),
             Err(_) => return unsup(&format!("arguments of {}!", name), mac.span()),
@@ -407,7 +706,11 @@ impl<'a> Ctx<'a> {
             }
             Pat::Lit(l) => match &l.lit {
                 Lit::Bool(b) => Ok((if b.value { "true".into() } else { "false".into() }, vec![])),
-                _ => unsup("literal pattern (only bool literals)", p.span()),
+                Lit::Int(i) if is_int(ty) || *ty == Ty::Unknown => match i.base10_parse::<u64>() {
+                    Ok(v) => Ok((format!("{}", v), vec![])),
+                    Err(_) => unsup("integer literal pattern", p.span()),
+                },
+                _ => unsup("literal pattern (only bool / integer literals)", p.span()),
             },
             Pat::Tuple(pt) => {
                 let tys: Vec<Ty> = match ty {
@@ -429,6 +732,8 @@ impl<'a> Ctx<'a> {
                     return unsup("constructor pattern arity", p.span());
                 }
                 let (ctor, inner_ty) = match (last.as_str(), ty) {
+                    ("Ok", Ty::Either(t, _)) => ("inl", (**t).clone()),
+                    ("Err", Ty::Either(_, t)) => ("inr", (**t).clone()),
                     ("Some", Ty::Opt(t)) => ("Some", (**t).clone()),
                     ("Some", _) => ("Some", Ty::Unknown),
                     ("Ok", Ty::Res(t)) => ("ROk", (**t).clone()),
@@ -450,9 +755,31 @@ impl<'a> Ctx<'a> {
 
     // ------------------------------------------------------------------ expressions
     pub fn expr(&mut self, e: &Expr, k: K) -> R {
-        let key = norm(e);
+        let key = self.nk(e);
+        if let Some((_, to)) = self.spec.rewrite.iter().find(|(p, _)| *p == key) {
+            let ne: Expr = match syn::parse_str(to) {
+                Ok(x) => x,
+                Err(_) => return unsup("rewrite target does not parse", e.span()),
+            };
+            // the replacement mentions canonical names: map them back to the names in scope
+            let back: Vec<(String, String)> = self.rename.iter().map(|(a, c)| (c.clone(), a.clone())).collect();
+            let ne: Expr = match syn::parse2(rename_tokens(ne.to_token_stream(), &back)) {
+                Ok(x) => x,
+                Err(_) => return unsup("rewrite target does not parse", e.span()),
+            };
+            let line = e.span().start().line;
+            LINE_OVERRIDE.with(|l| l.set(Some(line)));
+            let r = self.expr(&ne, k);
+            LINE_OVERRIDE.with(|l| l.set(None));
+            return r;
+        }
         if let Some(x) = self.spec.extra.iter().find(|x| x.pat == key) {
             return k(self, Tm::atom(x.param, x.ty.clone()));
+        }
+        if self.state_keys.iter().any(|p| *p == key) && !matches!(e, Expr::Path(_)) {
+            if let Some(t) = self.lookup(&key) {
+                return k(self, t);
+            }
         }
         if let Some((_, v, ty)) = self.spec.consts.iter().find(|(p, _, _)| *p == key) {
             return k(self, Tm::atom(v.clone(), ty.clone()));
@@ -513,6 +840,8 @@ impl<'a> Ctx<'a> {
                 self.expr(&c.expr, &|cx, t| match (&t.ty, &to) {
                     (Ty::Int(a), Ty::Int(b)) if a <= b => k(cx, Tm { ty: to.clone(), ..t }),
                     (Ty::NonZero, Ty::Int(64)) | (Ty::Addr, Ty::Int(64)) => k(cx, Tm { ty: to.clone(), ..t }),
+                    // isize is represented by its bit pattern, a pointer by its address
+                    (Ty::Int(64), Ty::ISize) | (Ty::ISize, Ty::Int(64)) | (Ty::Ptr, Ty::Int(64)) => k(cx, Tm { ty: to.clone(), ..t }),
                     _ => unsup(&format!("cast `{}` (only widening / same-width integer casts)", norm(e)), c.span()),
                 })
             }
@@ -534,7 +863,7 @@ impl<'a> Ctx<'a> {
                         if !matches!(c.ret, Ty::Opt(_)) {
                             return unsup("`?` on Option in a function not returning Option", t.span());
                         }
-                        let rest = k(c, Tm::atom(v.clone(), *inner))?;
+                        let rest = c.branch(|c| k(c, Tm::atom(v.clone(), *inner)))?;
                         let none = c.finish(Tm::atom("None", c.ret.clone()))?;
                         Ok(format!("match {} with Some {} =>\n{}\n| None => {} end", tm.s, v, rest, none))
                     }
@@ -542,7 +871,7 @@ impl<'a> Ctx<'a> {
                         if !matches!(c.ret, Ty::Res(_)) {
                             return unsup("`?` on Result in a function not returning Result", t.span());
                         }
-                        let rest = k(c, Tm::atom(v.clone(), *inner))?;
+                        let rest = c.branch(|c| k(c, Tm::atom(v.clone(), *inner)))?;
                         let ev = c.fresh("e");
                         let err = c.finish(Tm::app(format!("RErr {}", ev), c.ret.clone()))?;
                         Ok(format!("match {} with ROk {} =>\n{}\n| RErr {} => {} end", tm.s, v, rest, ev, err))
@@ -556,10 +885,22 @@ impl<'a> Ctx<'a> {
                     let f_ = if i.index == 0 { "fst" } else { "snd" };
                     k(c, Tm::app(format!("{} {}", f_, b.s), v[i.index as usize].clone()))
                 }
+                // a pair built by a constructor-like call of another kernel (its Rust type is opaque);
+                // a misuse does not type-check in Coq
+                (Member::Unnamed(i), Ty::Unknown) if i.index < 2 => {
+                    let f_ = if i.index == 0 { "fst" } else { "snd" };
+                    k(c, Tm::app(format!("{} {}", f_, b.s), Ty::Int(64)))
+                }
                 _ => unsup(&format!("field access `{}`", norm(e)), f.span()),
             }),
             Expr::Call(call) => self.call(call, k),
             Expr::MethodCall(mc) => self.method(mc, k),
+            Expr::Assign(a) => {
+                let place = self.place_key(&a.left)?;
+                self.expr(&a.right, &|c, tm| c.assign(&place, tm, a.span(), &|c| k(c, Tm::unit())))
+            }
+            Expr::Break(b) if b.expr.is_none() && b.label.is_none() && self.spec.loop_idx.is_some() => self.step_value("KBreak"),
+            Expr::Continue(cn) if cn.label.is_none() && self.spec.loop_idx.is_some() => self.step_value("KNext"),
             Expr::Struct(s) => {
                 let name = s.path.segments.last().unwrap().ident.to_string();
                 if s.path.segments.len() >= 2 || self.spec.err_enums.iter().any(|n| *n == name) {
@@ -587,6 +928,21 @@ impl<'a> Ctx<'a> {
             Expr::Closure(_) => unsup("closure outside map/and_then", e.span()),
             Expr::Loop(_) | Expr::While(_) | Expr::ForLoop(_) => unsup("loop", e.span()),
             _ => unsup(&format!("expression `{}`", key), e.span()),
+        }
+    }
+
+    /// the environment key of an assignable place: a local variable or a declared state place
+    fn place_key(&self, e: &Expr) -> std::result::Result<String, TErr> {
+        if let Expr::Path(p) = e {
+            if let Some(id) = p.path.get_ident() {
+                return Ok(id.to_string());
+            }
+        }
+        let key = self.nk(e);
+        if self.state_keys.iter().any(|p| *p == key) {
+            Ok(key)
+        } else {
+            unsup(&format!("assignment to `{}`", key), e.span())
         }
     }
 
@@ -619,7 +975,7 @@ impl<'a> Ctx<'a> {
     }
 
     fn binary(&mut self, b: &ExprBinary, k: K) -> R {
-        let line = b.op.span().start().line;
+        let line = line_of(b.op.span());
         // short-circuit operators
         if matches!(b.op, BinOp::And(_) | BinOp::Or(_)) {
             let is_and = matches!(b.op, BinOp::And(_));
@@ -627,11 +983,28 @@ impl<'a> Ctx<'a> {
                 match c.probe(&|c, kk| c.expr(&b.right, kk))? {
                     Some(r) => k(c, Tm::app(format!("{} {} {}", l.s, if is_and { "&&" } else { "||" }, r.s), Ty::Bool)),
                     None => {
-                        let a = c.expr(&b.right, k)?;
-                        let s = k(c, Tm::atom(if is_and { "false" } else { "true" }, Ty::Bool))?;
+                        let a = c.branch(|c| c.expr(&b.right, k))?;
+                        let s = c.branch(|c| k(c, Tm::atom(if is_and { "false" } else { "true" }, Ty::Bool)))?;
                         Ok(if is_and { format!("if {} then\n{}\nelse\n{}", l.s, a, s) } else { format!("if {} then\n{}\nelse\n{}", l.s, s, a) })
                     }
                 }
+            });
+        }
+        if let Some(op) = match &b.op {
+            BinOp::AddAssign(_) => Some("padd"),
+            BinOp::SubAssign(_) => Some("psub"),
+            BinOp::MulAssign(_) => Some("pmul"),
+            _ => None,
+        } {
+            let place = self.place_key(&b.left)?;
+            return self.expr(&b.left, &|c, l| {
+                c.expr(&b.right, &|c, r| {
+                    if !(is_w64(&l.ty) && is_int(&r.ty)) {
+                        return unsup("compound assignment on non-64-bit operands", b.span());
+                    }
+                    let lty = l.ty.clone();
+                    c.bind_op(format!("{} m {} {} {}", op, line, l.s, r.s), lty, &|c, t| c.assign(&place, t, b.span(), &|c| k(c, Tm::unit())))
+                })
             });
         }
         self.expr(&b.left, &|c, l| {
@@ -730,13 +1103,14 @@ impl<'a> Ctx<'a> {
             return self.expr(&l.expr, &|c, scrut| {
                 let envlen = c.env.len();
                 let (ps, binds) = c.pattern(&l.pat, &scrut.ty)?;
-                c.env.extend(binds);
-                let a = c.block(&i.then_branch, k);
-                c.env.truncate(envlen);
-                let a = a?;
+                let _ = envlen;
+                let a = c.branch(|c| {
+                    c.env.extend(binds);
+                    c.block(&i.then_branch, k)
+                })?;
                 let b = match &i.else_branch {
-                    Some((_, e)) => c.expr(e, k)?,
-                    None => k(c, Tm::unit())?,
+                    Some((_, e)) => c.branch(|c| c.expr(e, k))?,
+                    None => c.branch(|c| k(c, Tm::unit()))?,
                 };
                 Ok(format!("match {} with {} =>\n{}\n| _ =>\n{} end", scrut.s, ps, a, b))
             });
@@ -753,13 +1127,13 @@ impl<'a> Ctx<'a> {
                         let ty = if a.ty == Ty::Unknown || matches!(a.ty, Ty::Opt(ref x) if **x == Ty::Unknown) { b.ty.clone() } else { a.ty.clone() };
                         return k(c, Tm::app(format!("if {} then {} else {}", cond.s, a.s, b.s), ty));
                     }
-                    let a = c.block(&i.then_branch, k)?;
-                    let b = c.expr(els, k)?;
+                    let a = c.branch(|c| c.block(&i.then_branch, k))?;
+                    let b = c.branch(|c| c.expr(els, k))?;
                     Ok(format!("if {} then\n{}\nelse\n{}", cond.s, a, b))
                 }
                 None => {
-                    let a = c.block(&i.then_branch, k)?;
-                    let b = k(c, Tm::unit())?;
+                    let a = c.branch(|c| c.block(&i.then_branch, k))?;
+                    let b = c.branch(|c| k(c, Tm::unit()))?;
                     Ok(format!("if {} then\n{}\nelse\n{}", cond.s, a, b))
                 }
             }
@@ -768,44 +1142,110 @@ impl<'a> Ctx<'a> {
 
     fn match_expr(&mut self, m: &ExprMatch, k: K) -> R {
         self.expr(&m.expr, &|c, scrut| {
-            // all arms plain terms?  then the match stays an expression
-            let mut pure_arms: Vec<(String, Tm)> = vec![];
-            let mut all_pure = true;
-            let names = c.names.clone();
-            for arm in &m.arms {
-                if arm.guard.is_some() {
-                    return unsup("match guard", arm.span());
-                }
-                let envlen = c.env.len();
-                let (ps, binds) = c.pattern(&arm.pat, &scrut.ty)?;
-                c.env.extend(binds);
-                let p = c.probe(&|c, kk| c.expr(&arm.body, kk));
-                c.env.truncate(envlen);
-                match p? {
-                    Some(t) => pure_arms.push((ps, t)),
-                    None => {
-                        all_pure = false;
-                        break;
+            let arms: Vec<&Arm> = m.arms.iter().collect();
+            if arms.iter().all(|a| a.guard.is_none()) {
+                // all arms plain terms?  then the match stays an expression
+                let mut pure_arms: Vec<(String, Tm)> = vec![];
+                let mut all_pure = true;
+                let names = c.names.clone();
+                for arm in &arms {
+                    let envlen = c.env.len();
+                    let (ps, binds) = c.pattern(&arm.pat, &scrut.ty)?;
+                    c.env.extend(binds);
+                    let p = c.probe(&|c, kk| c.expr(&arm.body, kk));
+                    c.env.truncate(envlen);
+                    match p? {
+                        Some(t) => pure_arms.push((ps, t)),
+                        None => {
+                            all_pure = false;
+                            break;
+                        }
                     }
                 }
+                if all_pure {
+                    let ty = pure_arms.iter().map(|(_, t)| t.ty.clone()).find(|t| *t != Ty::Unknown && !matches!(t, Ty::Opt(x) if **x == Ty::Unknown)).unwrap_or(Ty::Unknown);
+                    let arms = pure_arms.iter().map(|(p, t)| format!("| {} => {}", p, t.s)).collect::<Vec<_>>().join(" ");
+                    return k(c, Tm::app(format!("match {} with {} end", scrut.s, arms), ty));
+                }
+                c.names = names;
+                return c.match_arms(&scrut, &arms, k);
             }
-            if all_pure {
-                let ty = pure_arms.iter().map(|(_, t)| t.ty.clone()).find(|t| *t != Ty::Unknown && !matches!(t, Ty::Opt(x) if **x == Ty::Unknown)).unwrap_or(Ty::Unknown);
-                let arms = pure_arms.iter().map(|(p, t)| format!("| {} => {}", p, t.s)).collect::<Vec<_>>().join(" ");
-                return k(c, Tm::app(format!("match {} with {} end", scrut.s, arms), ty));
+            // guards: the scrutinee is examined several times, name it
+            if scrut.atomic {
+                c.match_arms(&scrut, &arms, k)
+            } else {
+                let v = c.fresh("sc");
+                let r = c.match_arms(&Tm::atom(v.clone(), scrut.ty.clone()), &arms, k)?;
+                Ok(format!("let {} := {} in\n{}", v, scrut.s, r))
             }
-            c.names = names;
-            let mut arms = vec![];
-            for arm in &m.arms {
-                let envlen = c.env.len();
-                let (ps, binds) = c.pattern(&arm.pat, &scrut.ty)?;
-                c.env.extend(binds);
-                let body = c.expr(&arm.body, k);
-                c.env.truncate(envlen);
-                arms.push(format!("| {} =>\n{}", ps, body?));
-            }
-            Ok(format!("match {} with\n{}\nend", scrut.s, arms.join("\n")))
         })
+    }
+
+    /// Arms tried in order.  Up to the first guarded arm they form one Coq `match`; the guarded arm
+    /// becomes `| p => if guard then body else REST | _ => REST` with REST = the remaining arms
+    /// matched against the same scrutinee (Rust semantics of a failing guard).
+    fn match_arms(&mut self, scrut: &Tm, arms: &[&Arm], k: K) -> R {
+        if arms.is_empty() {
+            return Err(TErr::Unsupported("a `match` with guards may fall through all its arms".into()));
+        }
+        let gi = arms.iter().position(|a| a.guard.is_some());
+        let plain = &arms[..gi.unwrap_or(arms.len())];
+        let mut out = vec![];
+        for arm in plain {
+            let (ps, binds) = self.pattern(&arm.pat, &scrut.ty)?;
+            let body = self.branch(|c| {
+                c.env.extend(binds);
+                c.expr(&arm.body, k)
+            })?;
+            out.push(format!("| {} =>\n{}", ps, body));
+        }
+        if let Some(i) = gi {
+            let arm = arms[i];
+            let rest = &arms[i + 1..];
+            let guard: &Expr = &arm.guard.as_ref().unwrap().1;
+            let (ps, binds) = self.pattern(&arm.pat, &scrut.ty)?;
+            let irrefutable = match &arm.pat {
+                Pat::Wild(_) => true,
+                Pat::Ident(pi) => pi.ident != "None",
+                _ => false,
+            };
+            let guarded = self.branch(|c| {
+                c.env.extend(binds);
+                c.expr(guard, &|c, g| {
+                    if g.ty != Ty::Bool {
+                        return unsup("match guard is not a bool", guard.span());
+                    }
+                    if g.s == "false" {
+                        return c.branch(|c| c.match_arms(scrut, rest, k));
+                    }
+                    let a = c.branch(|c| c.expr(&arm.body, k))?;
+                    if g.s == "true" {
+                        return Ok(a);
+                    }
+                    let r = c.branch(|c| c.match_arms(scrut, rest, k))?;
+                    Ok(format!("if {} then\n{}\nelse\n{}", g.s, a, r))
+                })
+            })?;
+            out.push(format!("| {} =>\n{}", ps, guarded));
+            // constructors completely covered by the patterns of this Coq match
+            let mut covered: Vec<String> = vec![];
+            for a in &arms[..=i] {
+                if let Some(cn) = full_ctor(&a.pat, &self.spec.newtypes) {
+                    covered.push(cn);
+                }
+            }
+            let all = |l: &[&str]| l.iter().all(|x| covered.iter().any(|c| c == x));
+            let exhaustive = match &scrut.ty {
+                Ty::Either(_, _) | Ty::Res(_) => all(&["Ok", "Err"]),
+                Ty::Opt(_) => all(&["Some", "None"]),
+                _ => false,
+            };
+            if !irrefutable && !exhaustive {
+                let r = self.branch(|c| c.match_arms(scrut, rest, k))?;
+                out.push(format!("| _ =>\n{}", r));
+            }
+        }
+        Ok(format!("match {} with\n{}\nend", scrut.s, out.join("\n")))
     }
 
     /// `Error::Variant`, `Error::Variant(a, ..)`, `Error::Variant { f: a, .. }`  ->  E "Variant" [..]
@@ -878,7 +1318,7 @@ impl<'a> Ctx<'a> {
         };
         let last = path.segments.last().unwrap().ident.to_string();
         let args: Vec<&Expr> = call.args.iter().collect();
-        let line = call.span().start().line;
+        let line = line_of(call.span());
         if self.is_err_path(&Expr::Call(call.clone())) {
             return self.err_value(&Expr::Call(call.clone()), k);
         }
@@ -921,6 +1361,43 @@ impl<'a> Ctx<'a> {
                 });
             }
         }
+        // opaque free functions / closures: effect calls and value-returning calls
+        if self.spec.effects.iter().any(|m| *m == last) {
+            let sel = self.select_args(&last, &args);
+            return self.effect_call(&last, sel, call.span(), k);
+        }
+        if let Some(f) = self.spec.fns.iter().find(|f| f.method == last) {
+            let sel = self.select_args(&last, &args);
+            let (p, ty) = (f.param, f.ret.clone());
+            return self.exprs(&sel, &|c, tms| {
+                let tms: Vec<&Tm> = tms.iter().filter(|t| t.ty != Ty::Unit).collect();
+                let l = tms.iter().map(|t| t.s.clone()).collect::<Vec<_>>().join(" ");
+                if tms.is_empty() { k(c, Tm::atom(p, ty.clone())) } else { k(c, Tm::app(format!("{} {}", p, l), ty.clone())) }
+            });
+        }
+        // constructor-like calls: the tuple of the kept arguments
+        if let Some((_, keep)) = self.spec.ctors.iter().find(|(n, _)| *n == last) {
+            let sel: Vec<&Expr> = keep.iter().filter_map(|i| args.get(*i).copied()).collect();
+            if sel.len() != keep.len() {
+                return unsup(&format!("constructor `{}` called with too few arguments", last), call.span());
+            }
+            return self.exprs(&sel, &|c, tms| match tms.len() {
+                1 => k(c, tms[0].clone()),
+                _ => {
+                    let s = tms.iter().map(|t| t.s.clone()).collect::<Vec<_>>().join(", ");
+                    k(c, Tm { s: format!("({})", s), ty: Ty::Tup(tms.iter().map(|t| t.ty.clone()).collect()), atomic: false })
+                }
+            });
+        }
+        // isize::try_from(usize): Err above isize::MAX
+        if last == "try_from" && path.segments.len() == 2 && path.segments[0].ident == "isize" && args.len() == 1 {
+            return self.expr(args[0], &|c, t| {
+                if !is_w64(&t.ty) {
+                    return unsup("isize::try_from of a non-usize", call.span());
+                }
+                k(c, Tm::app(format!("isize_try_from {}", t.s), Ty::Res(Box::new(Ty::ISize))))
+            });
+        }
         // std::cmp::min / max
         if (last == "min" || last == "max") && args.len() == 2 && (path.segments.len() == 1 || path.segments.iter().any(|s| s.ident == "cmp")) {
             return self.exprs(&args, &|c, t| k(c, Tm::app(format!("N.{} {} {}", last, t[0].s, t[1].s), t[0].ty.clone())));
@@ -931,6 +1408,34 @@ impl<'a> Ctx<'a> {
             return self.exprs(&args, &|c, t| c.call_kernel(&sig, t, line, k));
         }
         unsup(&format!("call of `{}`", norm(&call.func)), call.span())
+    }
+
+    fn select_args<'e>(&self, name: &str, args: &[&'e Expr]) -> Vec<&'e Expr> {
+        match self.spec.argsel.iter().find(|(n, _)| *n == name) {
+            Some((_, keep)) => keep.iter().filter_map(|i| args.get(*i).copied()).collect(),
+            None => args.to_vec(),
+        }
+    }
+
+    /// an opaque unit-returning call: recorded in the call list the kernel returns
+    fn effect_call(&mut self, name: &str, all: Vec<&Expr>, sp: proc_macro2::Span, k: K) -> R {
+        let name = name.to_string();
+        self.exprs(&all, &|c, tms| {
+            for t in &tms {
+                if !is_int(&t.ty) {
+                    return unsup("non-integer argument of an effect call", sp);
+                }
+            }
+            let rest = k(c, Tm::unit())?;
+            let l = tms.iter().map(|t| t.s.clone()).collect::<Vec<_>>().join("; ");
+            let call = format!("Call \"{}\" [{}]", name, l);
+            Ok(match (c.spec.step.is_some(), c.monadic) {
+                (false, false) => format!("{} ::\n{}", call, rest),
+                (false, true) => format!("ocons ({})\n({})", call, rest),
+                (true, false) => format!("ecall ({})\n({})", call, rest),
+                (true, true) => format!("oecall ({})\n({})", call, rest),
+            })
+        })
     }
 
     fn closure1<'e>(&mut self, e: &'e Expr) -> std::result::Result<(Option<String>, &'e Expr), TErr> {
@@ -949,7 +1454,7 @@ impl<'a> Ctx<'a> {
 
     fn method(&mut self, mc: &ExprMethodCall, k: K) -> R {
         let name = mc.method.to_string();
-        let line = mc.method.span().start().line;
+        let line = line_of(mc.method.span());
         let args: Vec<&Expr> = mc.args.iter().collect();
         // opaque unit-returning calls of effect kernels
         if self.spec.effects.iter().any(|m| *m == name) {
@@ -957,21 +1462,12 @@ impl<'a> Ctx<'a> {
             if let Expr::Index(ix) = &*mc.receiver {
                 all.push(&ix.index);
             }
-            for a in &args {
-                if !norm(*a).starts_with("Ordering ::") {
+            for a in self.select_args(&name, &args) {
+                if !norm(a).starts_with("Ordering ::") {
                     all.push(a);
                 }
             }
-            return self.exprs(&all, &|c, tms| {
-                for t in &tms {
-                    if !is_int(&t.ty) {
-                        return unsup("non-integer argument of an effect call", mc.span());
-                    }
-                }
-                let rest = k(c, Tm::unit())?;
-                let l = tms.iter().map(|t| t.s.clone()).collect::<Vec<_>>().join("; ");
-                Ok(format!("Call \"{}\" [{}] ::\n{}", name, l, rest))
-            });
+            return self.effect_call(&name, all, mc.span(), k);
         }
         // opaque value-returning calls (function parameters)
         if let Some(f) = self.spec.fns.iter().find(|f| f.method == name) {
@@ -979,8 +1475,8 @@ impl<'a> Ctx<'a> {
             if let Expr::Index(ix) = &*mc.receiver {
                 all.push(&ix.index);
             }
-            for a in &args {
-                if !norm(*a).starts_with("Ordering ::") {
+            for a in self.select_args(&name, &args) {
+                if !norm(a).starts_with("Ordering ::") {
                     all.push(a);
                 }
             }
@@ -989,6 +1485,18 @@ impl<'a> Ctx<'a> {
                 let l = tms.iter().map(|t| t.s.clone()).collect::<Vec<_>>().join(" ");
                 if tms.is_empty() { k(c, Tm::atom(p, ty.clone())) } else { k(c, Tm::app(format!("{} {}", p, l), ty.clone())) }
             });
+        }
+        // method of an object whose methods are kernels of another group (`region.to_region_addr(..)`)
+        let rk = self.nk(&*mc.receiver);
+        if let Some((_, g)) = self.spec.recv_groups.iter().find(|(r, _)| *r == rk) {
+            let key = format!("{}::{}", g, name);
+            if let Some(mut sig) = self.sigs.get(&key).cloned() {
+                if sig.module != self.spec.module {
+                    sig.coq = format!("Gen.{}.{}", sig.module, sig.coq);
+                }
+                return self.exprs(&args, &|c, t| c.call_kernel(&sig, t, line, k));
+            }
+            return unsup(&format!("method `{}` of `{}` is not a kernel of group {}", name, rk, g), mc.span());
         }
         // method of `self` that is another kernel of the group
         if norm(&*mc.receiver) == "self" {
@@ -1037,6 +1545,23 @@ impl<'a> Ctx<'a> {
                         None => unsup("closure body with panicking operations / control flow", mc.span()),
                     }
                 }
+                (Ty::Res(inner), "ok") if args.is_empty() && **inner == Ty::ISize => {
+                    // only for isize::try_from: `isize_try_from` already is the option
+                    k(c, Tm { ty: Ty::Opt(inner.clone()), ..recv.clone() })
+                }
+                (Ty::Ptr, "add") | (Ty::Ptr, "wrapping_add") if args.len() == 1 => c.expr(args[0], &|c, a| {
+                    if !is_w64(&a.ty) {
+                        return unsup("pointer add of a non-usize", mc.span());
+                    }
+                    k(c, Tm::app(format!("ptr_add {} {}", recv.s, a.s), Ty::Ptr))
+                }),
+                (t, m) if is_int(t) && c.spec.id_methods.iter().any(|x| *x == m) && args.is_empty() => k(c, recv.clone()),
+                (Ty::ISize, "checked_mul") if args.len() == 1 => c.expr(args[0], &|c, a| {
+                    if a.ty != Ty::ISize {
+                        return unsup("isize::checked_mul with a non-isize operand", mc.span());
+                    }
+                    k(c, Tm::app(format!("checked_mul_i64 {} {}", recv.s, a.s), Ty::Opt(Box::new(Ty::ISize))))
+                }),
                 (Ty::Opt(_), "is_none") => k(c, Tm::app(format!("match {} with Some _ => false | None => true end", recv.s), Ty::Bool)),
                 (Ty::Opt(_), "is_some") => k(c, Tm::app(format!("match {} with Some _ => true | None => false end", recv.s), Ty::Bool)),
                 (Ty::Opt(inner), "unwrap") => {
@@ -1107,6 +1632,22 @@ impl<'a> Ctx<'a> {
                 _ => unsup(&format!("method `{}` on `{}`", name, norm(&*mc.receiver)), mc.span()),
             }
         })
+    }
+}
+
+/// `Ctor(x)` / `Ctor(_)` / `None`: the constructor the pattern covers completely
+fn full_ctor(p: &Pat, _newtypes: &[&str]) -> Option<String> {
+    let irrefutable = |q: &Pat| match q {
+        Pat::Wild(_) => true,
+        Pat::Ident(pi) => pi.ident != "None",
+        _ => false,
+    };
+    match p {
+        Pat::Paren(pp) => full_ctor(&pp.pat, _newtypes),
+        Pat::Ident(pi) if pi.ident == "None" => Some("None".into()),
+        Pat::Path(pp) => Some(pp.path.segments.last().unwrap().ident.to_string()),
+        Pat::TupleStruct(ts) if ts.elems.len() == 1 && irrefutable(&ts.elems[0]) => Some(ts.path.segments.last().unwrap().ident.to_string()),
+        _ => None,
     }
 }
 
